@@ -56,6 +56,17 @@ INFO = {
  "C16_5": ("INDEX_CODE as defaultdict indexed with [] (as C16_3, found independently)", "non-index symbol in an index slot", False, ""),
  "C17_5": ("encoder's fragment offset assigned instead of accumulated", "attribute=True and three or more fragments", False, ""),
  "C18_5": ("charge parsing `len(s) * 1 if plus else -1`: runs of '-' all become -1", "legacy atoms with '--' / '---' charges ([O--expl])", False, ""),
+ "C03_4": ("':' removed from SMILES_BOND_ORDERS (tokenizer still accepts it): explicit aromatic bonds are read as single bonds", "aromatic bonds spelled out with ':'", True, "missed (no ':' among C03's tokens and spellings; 'consistent single/double assignment' was only judged as 'at most one double bond per atom'); caught after ':' was added to the token alphabets and an explicit-aromatic-bond template, and the round-trip judge also applies O-KEK's Kekule-structure test"),
+ "C01_6": ("SMILES writer's ring-number table reset per '.'-fragment", "a ring bond across two fragments plus different numbers of ring labels before its two ends", False, ""),
+ "C02_6": ("[epsilon] treated as a no-op when the molecule is empty instead of when the state is X0", "[epsilon] as first effective symbol of a later '.'-fragment", True, "missed in the quick tier (needs atom . [epsilon] atom = 4 items, quick fragments part stops at 3); caught after a 'later fragment' level (atom '.' + 3 free symbols) was added; thorough fragments N>=4 catches it as well"),
+ "C05_6": ("augmenting-path search skips neighbours already in the search tree (odd-cycle edges)", "an all-carbon odd ring fused into a larger system and an unlucky atom order (6 of 90 spellings of acenaphthylene)", False, ""),
+ "C06_6": ("kekulize truncates the half-bond count after every bond instead of once per atom", "aromatic spelling, custom table putting a ring atom exactly one above capacity, atom not last of its ring", True, "missed (the 'iff' was only judged on non-aromatic inputs); caught after the iff was extended to kekulizable aromatic inputs of standard kinds (bond-order sum = sigma + H + O-KEK pi need) and two aromatic templates were added"),
+ "C08_6": ("ring symbols attributed to their bonds; update_bond_order's early return yields None", "attribute=True and a ring symbol landing on an existing order-3 bond between atoms with free valence", False, ""),
+ "C09_6": ("ring labels normalised with int()", "a non-decimal numeric character (superscript two) in ring-label position", False, ""),
+ "C10_6": ("strict check skips atoms without bonds", "a lone atom with more H than its capacity ([C@H9], [NH4+] under N+1 = 3)", False, ""),
+ "C12_6": ("presets built lazily; the call that builds one returns the stored object itself", "get_preset_constraints(name) as the first use of that preset in the process, then caller-side mutation", True, "harness error at first (exit 2, not a verdict: the harness read the private preset store for its expected values); now the expected presets are the documented tables (vf/docs.py), the per-path reset restores 'not built yet', and the replayer runs C12 histories on a freshly imported package; caught as C12:preset-changed"),
+ "C14_6": ("get_alphabet_from_selfies joins the collection with '.' and splits once", "an empty string in an interior position of the collection, or two trailing empty strings", True, "missed (collections of at most two strings); caught after the three-string CrossHair contract and the E1 collection part (3 strings, each empty / one / two symbols, list or one-shot iterator) were added"),
+ "C15_6": ("batch_flat_hot_to_selfies computes the row count from the first vector only", "a batch of flat vectors of different lengths", False, ""),
 }
 only = sys.argv[1:]
 for label in sorted(os.listdir(os.path.join(HERE, "seeded"))):
